@@ -880,3 +880,91 @@ func (ex *Exec) native(fr *frame, it iface) interface{} {
 	unsupported(fmt.Sprintf("fmt verb on a symbolic or unsupported operand (%T)", it.v))
 	return nil
 }
+
+// ---- io/fs on testing/fstest.MapFS ------------------------------------------------------------------------------
+
+func (ex *Exec) mapFSFiles(sys value) map[string]*value {
+	it := sys.(iface)
+	if it.t == nil {
+		rtPanic("invalid memory address or nil pointer dereference")
+	}
+	m, ok := it.v.(*mapV)
+	if !ok {
+		unsupported("io/fs functions on a file system of type " + it.t.String())
+	}
+	files := map[string]*value{}
+	for _, e := range m.live() {
+		files[str(e.k, "file name")] = e.v.(*value)
+	}
+	return files
+}
+
+func (e *Engine) registerFS() {
+	e.Register("io/fs.Glob", func(fr *frame, a []value) value {
+		files := fr.ex.mapFSFiles(a[0])
+		pattern := str(a[1], "glob pattern")
+		dir, file := "", pattern
+		if i := strings.LastIndexByte(pattern, '/'); i >= 0 {
+			dir, file = pattern[:i], pattern[i+1:]
+		}
+		if strings.ContainsAny(dir, `*?[\`) {
+			unsupported("fs.Glob with meta characters in the directory part")
+		}
+		if _, err := filepath.Match(file, ""); err != nil {
+			return tuple{(*sliceV)(nil), fr.ex.newErr("syntax error in pattern")}
+		}
+		names := map[string]bool{}
+		for k := range files {
+			rest := k
+			if dir != "" {
+				if !strings.HasPrefix(k, dir+"/") {
+					continue
+				}
+				rest = k[len(dir)+1:]
+			}
+			if i := strings.IndexByte(rest, '/'); i >= 0 {
+				rest = rest[:i]
+			}
+			names[rest] = true
+		}
+		var sorted []string
+		for n := range names {
+			sorted = append(sorted, n)
+		}
+		sort.Strings(sorted)
+		var out []value
+		for _, n := range sorted {
+			if ok, _ := filepath.Match(file, n); ok {
+				if dir != "" {
+					out = append(out, dir+"/"+n)
+				} else {
+					out = append(out, n)
+				}
+			}
+		}
+		fr.ex.used("io/fs.Glob (model over MapFS)")
+		if len(out) == 0 {
+			return tuple{(*sliceV)(nil), iface{}}
+		}
+		return tuple{newSliceOf(out), iface{}}
+	})
+	e.Register("io/fs.ReadFile", func(fr *frame, a []value) value {
+		files := fr.ex.mapFSFiles(a[0])
+		name := str(a[1], "file name")
+		fr.ex.used("io/fs.ReadFile (model over MapFS)")
+		f, ok := files[name]
+		if !ok || f == nil {
+			return tuple{(*sliceV)(nil), fr.ex.errValue(&engErr{msg: "open " + name + ": file does not exist", wrapped: fr.ex.errNotExist()})}
+		}
+		data := (*f).(structure)[0].(*sliceV)
+		n := sliceLen(data)
+		cp := make([]value, n)
+		for i := 0; i < n; i++ {
+			cp[i] = *data.at(i)
+		}
+		if n == 0 {
+			return tuple{(*sliceV)(nil), iface{}}
+		}
+		return tuple{newSliceOf(cp), iface{}}
+	})
+}
